@@ -6,7 +6,7 @@ ResetAct == AResetAuth
 
 StepAct ==
   \/ Is("verify") /\ Verify(Ev.sent, Ev.pert, Ev.enabledHas, Ev.accepted)
-  \/ Is("wire")   /\ Wire(Ev.creds, Ev.status, Ev.kept)
+  \/ Is("wire")   /\ Wire(Ev.creds, Ev.status, Ev.kept, IF "sent" \in DOMAIN Ev THEN Ev.sent ELSE "-")
   \/ Is("end")    /\ UNCHANGED authvars
 
 Next == TraceNext(ResetAct, StepAct, UNCHANGED authvars)
